@@ -46,6 +46,8 @@ inductive Obs (K : Type) where
   | refused                   -- integrate raised (wrong input size); state unchanged
   | image (img : List K)      -- read_out returned this image
   | failed                    -- read_out raised (only in the `Old` model)
+  | random                    -- read_out with photon or read noise switched on: not deterministic
+deriving DecidableEq
 
 /-- `power * dt * weight`, pixel by pixel (in that order, as the code multiplies) -/
 def charge (p : List K) (dt w : K) : List K := p.map fun x => x * dt * w
@@ -75,6 +77,12 @@ def run (g : Geom) : St K → List (Op K) → St K × List (Obs K)
     let r := step g st op
     let rs := run g r.1 ops
     (rs.1, r.2 :: rs.2)
+
+/-- the observations of the read-outs of a history (noiseless detector) -/
+def reads (g : Geom) : St K → List (Op K) → List (Obs K)
+  | _, [] => []
+  | st, .readOut :: ops => (step g st .readOut).2 :: reads g (step g st .readOut).1 ops
+  | st, op :: ops => reads g (step g st op).1 ops
 
 /-! ### the unrepaired tree -/
 
@@ -137,6 +145,74 @@ def nRun (g : Geom) (nz : Noise K) : NSt K → List (Op K) → NSt K × List (Ob
     let r := nStep g nz st op
     let rs := nRun g nz r.1 ops
     (rs.1, r.2 :: rs.2)
+
+/-! ### the noisy detector with its parameters as mutable state (setters between operations)
+
+`flat_field`, `dark_current_rate`, `read_noise` and `include_photon_noise` are public attributes that
+can be assigned at any time.  The dark current enters at `integrate` (with the rate in force *then*),
+flat field, photon noise and read noise at `read_out` (with the values in force *then*).  Scalars
+are sent to the model already broadcast to one value per pixel (`flat_field = 0` is the unit map). -/
+
+inductive POp (K : Type) where
+  | integrate (p : List K) (dt w : K)
+  | readOut
+  | setFlat (m : List K)
+  | setDark (d : List K)
+  | setSigma (s : List K)
+  | setPhoton (b : Bool)
+
+structure PSt (K : Type) where
+  acc : Option (List K) := none
+  flat : List K
+  dark : List K
+  sigma : List K
+  photon : Bool := false
+  /-- ghost: no dark current has entered the exposure in progress -/
+  clean : Bool := true
+
+section
+variable [DecidableEq K] [One K]
+
+/-- every noise source is off *now* and the exposure in progress is free of dark current -/
+def PSt.off (g : Geom) (st : PSt K) : Bool :=
+  st.clean && !st.photon && decide (st.flat = List.replicate g.npix 1) && decide (st.sigma = vzero g.npix)
+
+/-- a read-out is deterministic when photon noise is off and the read noise is zero -/
+def PSt.deterministic (g : Geom) (st : PSt K) : Bool :=
+  !st.photon && decide (st.sigma = vzero g.npix)
+
+def pStep (g : Geom) (st : PSt K) : POp K → PSt K × Obs K
+  | .integrate p dt w =>
+    if p.length = g.ninput then
+      let a1 := accAdd st.acc (charge (binND g.s g.dims p) dt w)
+      ({ st with acc := some (List.zipWith (fun a d => a + d * dt * w) a1 st.dark),
+                 clean := st.clean && decide (st.dark = vzero g.npix) }, .done)
+    else (st, .refused)
+  | .readOut =>
+    let st' := { st with acc := none, clean := true }
+    if st.deterministic g then
+      (st', .image (List.zipWith (· * ·) (st.acc.getD (vzero g.npix)) st.flat))
+    else (st', .random)
+  | .setFlat m => ({ st with flat := m }, .done)
+  | .setDark d => ({ st with dark := d }, .done)
+  | .setSigma s => ({ st with sigma := s }, .done)
+  | .setPhoton b => ({ st with photon := b }, .done)
+
+/-- the read-outs of a history with setters: for each one, whether everything was off, and what
+was observed -/
+def pReads (g : Geom) : PSt K → List (POp K) → List (Bool × Obs K)
+  | _, [] => []
+  | st, .readOut :: ops => (st.off g, (pStep g st .readOut).2) :: pReads g (pStep g st .readOut).1 ops
+  | st, op :: ops => pReads g (pStep g st op).1 ops
+
+/-- forget the setters: the history a noiseless detector would see -/
+def strip : List (POp K) → List (Op K)
+  | [] => []
+  | .integrate p dt w :: ops => .integrate p dt w :: strip ops
+  | .readOut :: ops => .readOut :: strip ops
+  | _ :: ops => strip ops
+
+end
 
 /-! ### the specification side: what a read-out has to be -/
 
